@@ -61,6 +61,15 @@ impl TxDelta {
         )
     }
 
+    /// A sale at a loss, whether or not (part of) the loss was found superficial.
+    /// Such a sale can become superficial if an acquisition is moved into its
+    /// 30 day period.
+    pub fn is_loss_sale(&self) -> bool {
+        self.is_superficial_loss()
+            || (self.tx.action() == crate::portfolio::TxAction::Sell
+                && self.capital_gain.map(|g| g.is_sign_negative() && !g.is_zero()).unwrap_or(false))
+    }
+
     pub fn is_superficial_loss(&self) -> bool {
         match &self.sfl {
             Some(sfl) => !sfl.superficial_loss.is_zero(),
